@@ -4,4 +4,6 @@ set -e
 cd "$(dirname "$0")"
 export CARGO_NET_OFFLINE=true
 ( cd sim && cargo build --offline --release && cargo build --offline --profile zcheck )
+# warm the Miri build of the schedule scenarios (C11, C18); failure here is reported by those checks as a harness error
+( cd sim/miri-sched && MIRIFLAGS="-Zmiri-seed=0" cargo +nightly miri run --offline -q -- statics-race 2 0 ) || echo "warning: miri warm-up failed"
 echo "setup ok"
